@@ -482,8 +482,8 @@ func runC17(cfg *runCfg) error {
 		ops := genEngineOps(cr, feats, tplNames, cr.rangeI(4, 14), &datas, true)
 		res.Evaluations++
 		te := document.NewTemplateEngine()
-		bound := map[string]int{}  // name -> index of the load that bound it
-		parentOf := map[int]int{}  // load index -> load index of the parent (-1: none)
+		bound := map[string]int{} // name -> index of the load that bound it
+		parentOf := map[int]int{} // load index -> load index of the parent (-1: none)
 		var coqOps, coqOuts []string
 		var hist []string
 		for k, o := range ops {
